@@ -465,6 +465,7 @@ pub fn zero_wait_real_clock() -> (u64, Vec<String>) {
                 eff: CallTimeouts { wait: None, create: None, recycle: None },
                 phase: Phase::NotPolled,
                 started_at: None,
+                std_created: std::time::Instant::now(),
                 call_started_at: None,
                 last_fail: None,
                 script: Default::default(),
